@@ -295,7 +295,14 @@ def report(R, rec, rng, build, guest, t, o, bk, f, bad, chunk_id):
     ops = sorted(set(f.ops(enabled)))
     rec.count("disagreements:%s" % t)
     rec.count("reduction_compiles", tries)
-    if len(ops) == 1:
+    if t == "thumb":
+        # [weakened on purpose] miasm decodes only a few percent of clang's Thumb-2 output and the
+        # functions that do run hit several defects of the Thumb lifter (ADD Rdn,Rm lifted as ADDS,
+        # ORN, ADC.W ...) in a context-dependent way: one key per kind of disagreement, the
+        # operations are in the witness.  The semantic functions shared with ARM mode are keyed
+        # per operation under "arm".
+        key = "thumb %s" % kind
+    elif len(ops) == 1:
         key = "%s %s: %s" % (t, kind, ops[0])
     elif not ops:
         key = "%s %s: (no catalogue operation left)" % (t, kind)
